@@ -1,6 +1,45 @@
+import Sentinel.Drv.C01
+import Sentinel.Drv.C02
+import Sentinel.Drv.C03
+import Sentinel.Drv.C04
+import Sentinel.Drv.C05
+import Sentinel.Drv.C06
+import Sentinel.Drv.C07
 import Sentinel.Drv.C08
-/-! `sentinel-driver <property> <mode>` — line-protocol model driver (core Lean only, compiled) -/
+import Sentinel.Drv.C09
+import Sentinel.Drv.C10
+import Sentinel.Drv.C11
+import Sentinel.Drv.C12
+import Sentinel.Drv.C13
+import Sentinel.Drv.C14
+import Sentinel.Drv.C15
+import Sentinel.Drv.C16
+import Sentinel.Drv.C17
+import Sentinel.Drv.C18
+import Sentinel.Drv.C19
+import Sentinel.Drv.C20
+/-! `sentinel-driver <property> <mode>` — line-protocol model driver (core Lean only, compiled).
+    Modes: `model` (code-shaped model), `spec` (abstract reference) or `oracle` (judge an implementation trace). -/
 def main (args : List String) : IO UInt32 := do
   match args with
+  | ["C01", mode] => Sentinel.Drv.C01.run mode; return 0
+  | ["C02", mode] => Sentinel.Drv.C02.run mode; return 0
+  | ["C03", mode] => Sentinel.Drv.C03.run mode; return 0
+  | ["C04", mode] => Sentinel.Drv.C04.run mode; return 0
+  | ["C05", mode] => Sentinel.Drv.C05.run mode; return 0
+  | ["C06", mode] => Sentinel.Drv.C06.run mode; return 0
+  | ["C07", mode] => Sentinel.Drv.C07.run mode; return 0
   | ["C08", mode] => Sentinel.Drv.C08.run mode; return 0
-  | _ => IO.eprintln "usage: sentinel-driver <property> <model|spec>"; return 2
+  | ["C09", mode] => Sentinel.Drv.C09.run mode; return 0
+  | ["C10", mode] => Sentinel.Drv.C10.run mode; return 0
+  | ["C11", mode] => Sentinel.Drv.C11.run mode; return 0
+  | ["C12", mode] => Sentinel.Drv.C12.run mode; return 0
+  | ["C13", mode] => Sentinel.Drv.C13.run mode; return 0
+  | ["C14", mode] => Sentinel.Drv.C14.run mode; return 0
+  | ["C15", mode] => Sentinel.Drv.C15.run mode; return 0
+  | ["C16", mode] => Sentinel.Drv.C16.run mode; return 0
+  | ["C17", mode] => Sentinel.Drv.C17.run mode; return 0
+  | ["C18", mode] => Sentinel.Drv.C18.run mode; return 0
+  | ["C19", mode] => Sentinel.Drv.C19.run mode; return 0
+  | ["C20", mode] => Sentinel.Drv.C20.run mode; return 0
+  | _ => IO.eprintln "usage: sentinel-driver <property> <model|spec|oracle>"; return 2
